@@ -267,6 +267,15 @@ def net_correspondence(res, tier, rng):
                     a = [float(2 ** j) for j in range(n)]
                     glines.append('n%d SCHED NET change - - %s %d %d' % (i, vlib.streams([a, [float(k), float(b)]]), cap, i % 6))
                     mlines.append('n%d NET change 1 %d %s %d,%d' % (i, cap, vlib.il(a), k, b))
+    # trend.MovingSum as the library builds it (Duplicate / Shift / summing Operate / Skip): NetM.msumNet with buffer cap + p
+    for n in range(0, 8 if tier == 'quick' else 14):
+        for p in range(1, 5 if tier == 'quick' else 8):
+            for cap in (0, 1, 2):
+                i = len(cases)
+                cases.append((n, 'p=%d' % p, cap))
+                a = [float((7 * j * j + 3 * j) % 23 - 9) for j in range(n)]
+                glines.append('n%d SCHED NET msum - - %s %d %d' % (i, vlib.streams([a, [float(p)]]), cap, i % 6))
+                mlines.append('n%d NET msum 1 %d %s %d,%d' % (i, cap, vlib.il(a), p, cap + p))
     go, model = vlib.run_go(glines), vlib.run_model(mlines)
     bad = 0
     for i, c in enumerate(cases):
